@@ -39,7 +39,8 @@ def _c03(run, drv, rng, tier):
             props_c.check_copier(run, drv, rng, sc, 4000, False, ("-O2",), "C03")
             props_c.check_basetype_grid(run, drv, rng, sc, False, ("-O2",), 0.12, "C03")
             props_c.check_array_grid(run, drv, rng, sc, False, ("-O2",), 0.12, "C03")
-            props_c.check_compiled(run, drv, rng, sc, 24, 4, [{"name": "O2", "cflags": ("-O2",)}], "C03")
+            props_c.check_compiled(run, drv, rng, sc, 24, 4, [{"name": "O2", "cflags": ("-O2",)},
+                                                              {"name": "O2-single-TU", "cflags": ("-O2",), "single_tu": True}], "C03")
         else:
             for fl in (("-O0",), ("-O2",), ("-O3",)):
                 props_c.check_copier(run, drv, rng, sc, 60000, False, fl, "C03")
